@@ -204,6 +204,10 @@ func (g *progGen) re(depth int) *Re {
 }
 
 func (g *progGen) bound(pool [][]byte) *Bound {
+	if g.rng.Intn(14) == 0 {
+		// a bound explicitly set to the empty byte string
+		return &Bound{Kind: []string{"closed", "open"}[g.rng.Intn(2)], K: []byte{}}
+	}
 	switch g.rng.Intn(3) {
 	case 0:
 		return &Bound{Kind: "unset"}
